@@ -98,10 +98,19 @@ func (c *Ctx) Thorough() bool { return c.Tier == "thorough" }
 // N picks the case count for the tier.
 func (c *Ctx) N(quick, thorough int64) int64 {
 	if c.Thorough() {
+		// additional build configurations (slower: 64-bit arithmetic emulated on 386) get a
+		// bounded share of the thorough budget
+		if extraConfig && thorough > 8*quick {
+			return 8 * quick
+		}
 		return thorough
 	}
 	return quick
 }
+
+// extraConfig is set by the controller for stages that run a monitor in an additional build
+// configuration (alsoIn in cmd/vctl/plans.go).
+var extraConfig = os.Getenv("VERIF_EXTRA_CONFIG") == "1"
 
 // Mine reports whether case i belongs to this worker (and passes the replay filter).
 func (c *Ctx) Mine(i int64) bool {
